@@ -168,6 +168,17 @@ impl Worker for W {
                     let main = format!("let {{ wrap }} = import! std.applicative\nlet io @ {{ ? }} = import! std.io\nlet m = import! {}\ndo x = m\nwrap (x + 1)\n", mname);
                     return Some(json!({"kind": "io-module", "modules": [[mname, module]], "src": main, "settings": [0b01011, 0b11111, 0b00011], "feats": ["io-module"], "key": {"family": "io-module"}}));
                 }
+                if idx % 10 == 7 {
+                    // a value binding that is a call, inside a `rec` group (the F47 scenario), and
+                    // IO actions with a polymorphic result under run_io (the F46 scenario)
+                    let n = rng.below(50);
+                    let (kind, src) = if rng.chance(1, 2) {
+                        ("rec-group-call-binding", format!("let g x = x #Int+ {}\nrec let f x = if x #Int== 0 then 0 else f (x #Int- 1)\nlet l = g {}\nin (f 3, l)\n", n, n))
+                    } else {
+                        ("io-polymorphic-result", format!("let {{ wrap }} = import! std.applicative\nlet io @ {{ ? }} = import! std.io\nwrap (\\x -> (x, {}))\n", n))
+                    };
+                    return Some(json!({"kind": kind, "modules": [], "src": src, "settings": [0b01011, 0b11111, 0b00011, 0b00000, 0b00110], "feats": [kind], "key": {"family": kind}}));
+                }
                 let k = 1 + rng.below(3);
                 let tag = format!("{:x}", rng.next() & 0xffffff);
                 opts.canonical_record_patterns = true;
